@@ -30,7 +30,11 @@ def stopped_streams(c, rng, tier, results):
         n = per * 4 if prof.startswith("chan") else per
         for l in gen.batch(rng.next(), prof, n, f"c08s_{prof}_", ("random", "rr", "pct")):
             if l.startswith("config "):
-                l = l.replace("steps=none", "steps=cont:%d" % (2 + rng.below(9)))
+                # half of the executions are cut by the step bound, half by the scheduler itself answering "no task"
+                if rng.below(2):
+                    l = l.replace("steps=none", "steps=cont:%d" % (2 + rng.below(9)))
+                else:
+                    l = l + " stop=%d" % (1 + rng.below(12))
             elif l.startswith("run "):
                 # one execution per run: an execution abandoned in the middle of a panic leaks the OS thread's panic
                 # count into the next one (known finding F19, decided by C14) — not what this stream is about
